@@ -2,6 +2,7 @@ import AgVerif.Model.Proto
 import AgVerif.Model.Translate
 import AgVerif.Model.LitCtx
 import AgVerif.Model.JExpr
+import AgVerif.Model.JExprSem
 open AgVerif AgVerif.Proto AgVerif.Translate
 
 /-- `eval <opcode> <dom> <lit> <i1> <i2> <i3> <l1> <l2> <l3>`:
@@ -163,6 +164,32 @@ def handle (line : String) : String :=
          "text=" ++ printExpr e ++ " | java=" ++ showJ (JavaSem.eval ρ e)
        | none => "no-context")
     | _, _, _, _ => "bad-op"
+  -- `jxeval` / `jxctx` / `jxctx2` (same arguments as `eval` / `ctx` / `ctx2`): the expression of the fragment as an IR
+  -- tree (`JExpr.ofExpr`), its lexemes under `JExpr.print`, whether it is well formed and re-parses to its tree
+  | "jxeval" :: op :: dom :: lit :: _ =>
+    (match op.toNat?, lit.toInt? with
+     | some op, some lit =>
+       (match AgVerif.Gen.Translate.rows.find? (fun r => r.opcode == op && r.dom == dom), DalvikSem.form op with
+        | some r, some fm =>
+          (match coreOf r with
+           | some c => JX.reply (JExpr.ofExpr (exprOf fm lit c))
+           | none => "no-core")
+        | _, _ => "no-row")
+     | _, _ => "bad-op")
+  | "jxctx" :: fam :: op :: aux :: v :: _ =>
+    (match v.toInt? with
+     | some v =>
+       (match ctxExpr fam (if op == "_" then "" else op) aux v with
+        | some (e, _) => JX.reply (JExpr.ofExpr e)
+        | none => "no-context")
+     | none => "bad-op")
+  | "jxctx2" :: shape :: op1 :: op2 :: ty :: c1 :: c2 :: _ =>
+    (match c1.toInt?, c2.toInt? with
+     | some c1, some c2 =>
+       (match ctxExpr2 shape op1 op2 ty c1 c2 with
+        | some e => JX.reply (JExpr.ofExpr e)
+        | none => "no-context")
+     | _, _ => "bad-op")
   | "jexpr" :: ws =>
     (match JX.dec (ws.length + 1) ws with
      | some (e, []) => JX.reply e
